@@ -32,6 +32,10 @@ func (e *Error) updateFromTokenIfNeeded(template *Template, t *Token) *Error {
 		if e.Line <= 0 {
 			e.Line = t.Line
 			e.Column = t.Col
+			if e.Filename == "" {
+				// the position is one in the template the token was read from
+				e.Filename = t.Filename
+			}
 		}
 	}
 
